@@ -14,6 +14,8 @@ from common import *
 import py2coq
 import js2coq
 
+COQ_FILES = ['Lib/Str.v', 'Lib/NumOps.v', 'Gen/ClassificationPy.v', 'Gen/ClassificationJs.v', 'C13/Proofs.v',
+             'C13/Props.v']
 JS_ROOTS = ['categorizeAmount', 'isExcludedFromSpending', 'calculateCashFlow', 'isIncome', 'isTransfer',
             'isInvestment']
 PY_FNS = ['categorize_amount', 'is_excluded_from_spending', 'calculate_cash_flow', 'is_income', 'is_transfer',
@@ -34,6 +36,10 @@ def translate_classification(run):
     except (js2coq.Untranslatable, OSError, subprocess.SubprocessError, ValueError) as e:
         fails.append({'translator': 'js2coq', 'error': str(e)})
     return fails
+
+
+def regen_gen():
+    return translate_classification(None)
 
 
 def f2hex(x):
@@ -200,7 +206,7 @@ def main(tier):
         'str.lower and String.prototype.toLowerCase agree wherever the result is ASCII (swept over all code points each run)',
         'Vue rendering in the browser is outside the property']
     tfails = translate_classification(run)
-    res = run.proof_step('C13', ['Lib', 'Gen', 'C13'], extra_trusted=[
+    res = run.proof_step(COQ_FILES, extra_trusted=[
         'tools/py2coq.py, tools/js2coq.py + node bundled acorn (translators)',
         'differential harness harness/c13.py (node vs CPython, bit-exact doubles)'])
     broken = []
